@@ -104,7 +104,10 @@ class SortedSetSpec(Spec):
         return r[1], set(vals)
 
     def decoy(self):
-        return SortedSet([V[0], V[-1]]), lambda x: (canon(x), list(x))
+        d = SortedSet()             # created without initial values, filled afterwards
+        d.add(V[-1])
+        d.add(V[0])
+        return d, lambda x: (canon(x), list(x))
 
     # ---- menu
     def ops(self, s, model):
@@ -356,7 +359,10 @@ class SortedMapSpec(Spec):
         return r[1], model
 
     def decoy(self):
-        return SortedMap({V[0]: "x", V[-1]: "y"}), lambda x: (canon(x), list(x.keys_storage) if hasattr(x, "keys_storage") else list(x))
+        d = SortedMap()             # created without initial values, filled afterwards
+        d[V[-1]] = "y"
+        d[V[0]] = "x"
+        return d, lambda x: (canon(x), list(x.keys_storage) if hasattr(x, "keys_storage") else list(x))
 
     def ops(self, m, model):
         ops = []
@@ -599,6 +605,14 @@ def run(report, tier):
             return SortedMapSpec(max_init_len, max_update_len), MAP_STATE_CAP
         if which == "set-sparse":
             return SortedSetSpec(1, [], sparse=True), SET_STATE_CAP * 4
+        if which == "set-edge":
+            s_ = SortedSetSpec(2, [[], [0]])
+            s_.name = "SortedSet/inf-and-2**53"
+            return s_, SET_STATE_CAP
+        if which == "map-edge":
+            m_ = SortedMapSpec(1, 1)
+            m_.name = "SortedMap/inf-and-2**53"
+            return m_, MAP_STATE_CAP
         if which == "set-big":
             s_ = SortedSetSpec(2, [[], [0]])
             s_.name = "SortedSet/big-ints"
@@ -618,6 +632,10 @@ def run(report, tier):
             # ints far beyond the range of a float (and the largest floats): still ordinary, orderable keys
             V = [-(10 ** 400), 0, 1e308, 10 ** 400]
             PROBES = V + [2 ** 1024, -1.5, 10 ** 400 + 1]
+        if which.endswith("-edge"):
+            # infinities and an int / float pair that differ by less than float precision: exact comparison needed
+            V = [float("-inf"), 2.0 ** 53, 2 ** 53 + 1, float("inf")]
+            PROBES = V + [2 ** 53, 0, 1e308]
         spec, cap = mk(which)
         n_inits = sum(1 for _ in spec.initials())
         res = explore(spec, sub, max_depth=None, max_states=cap)
@@ -638,7 +656,7 @@ def run(report, tier):
 
     from mc.par import pmap
     results = {}
-    for which, res, d in pmap(work, ["map", "set", "map-sparse", "set-sparse", "map-big", "set-big"]):
+    for which, res, d in pmap(work, ["map", "set", "map-sparse", "set-sparse", "map-big", "set-big", "map-edge", "set-edge"]):
         results[which] = res
         report.merge(d)
     # anti-vacuity: the reachable graphs must be the complete ones for the alphabet (unless initialisers failed)
